@@ -224,8 +224,17 @@ def run_str_function(f: ast.FunctionDef, args: dict, funcs=None, globals_env=Non
                 for t in st.targets:
                     _bind(t, v, env)
                 continue
-            if isinstance(st, ast.AugAssign) and isinstance(st.target, ast.Name) and isinstance(st.op, ast.Add):
-                env[st.target.id] = env[st.target.id] + eval_str(st.value, env, funcs)
+            if isinstance(st, ast.AugAssign) and isinstance(st.target, ast.Name) and isinstance(st.op, (ast.Add, ast.Sub, ast.Mult)):
+                v = eval_str(st.value, env, funcs)
+                cur = env[st.target.id]
+                if isinstance(st.op, ast.Add):
+                    env[st.target.id] = cur + v
+                elif isinstance(st.op, ast.Sub):
+                    if not (isinstance(cur, int) and isinstance(v, int)):
+                        raise NotAString("-= on non-ints")
+                    env[st.target.id] = cur - v
+                else:
+                    env[st.target.id] = cur * v
                 continue
             if isinstance(st, ast.If):
                 t = eval_str(ast.IfExp(test=st.test, body=ast.Constant(True), orelse=ast.Constant(False)), env, funcs)
